@@ -87,6 +87,7 @@ func init() {
 				Real: []string{"v2/d2: waitForUriUpdates / waitForServiceUpdates loops, handleUriUpdate, handleServiceUpdate, serviceUris.copy, chooseHost / filterAndChooseHost, Uri.UnmarshalJSON, ResolveHostnameAndContextForQuery, getServiceUris on pre-seeded state", "v2/d2/lazymap"},
 				Stub: []string{"ZooKeeper and TreeCache (replaced by a pre-filled event channel, as in the repository's own tests)", "math/rand source behind d2.rng (values from the choice stream incl. exactly 0 and 1-2^-53)", "Go map iteration order in package d2 (permutation from the choice stream)", "goroutine scheduling (token kernel)"}},
 			s3b("", 1500, 150000),
+			s3b("tap=1", 1500, 150000),
 		},
 		Rule: "each run draws a service definition (6 prioritized-scheme lists), 0-2 pre-applied and 0-8 in-run announcement events over 3 znodes from {set (1-3 hosts x scheme x weight incl. 0 and non-dyadic), delete, malformed JSON, weight-less partition-only, root-path}, 0-2 service updates and 0-3 resolver tasks x 1-3 resolutions, plus the schedule, map orders and random values. A case is distinct by its (pre events, in-run events, service sequence) text and non-trivial when it has at least one event; schedules are counted separately.",
 		Assume: []string{
@@ -286,7 +287,11 @@ func init() {
 var seamsS3 = Seams{Add: "overlayfiles/d2/zz_verif_export.go=d2"}
 
 func s3b(cfg string, quick, thorough int) Batch {
-	return Batch{Pkg: "scen/s3", Scen: "zk", Cfg: cfg, Seams: seamsS3, Bubble: true, Quick: quick, Thorough: thorough, ThoroughSecs: 1200,
+	scen := "zk"
+	if strings.HasPrefix(cfg, "tap") {
+		scen = "zktap"
+	}
+	return Batch{Pkg: "scen/s3", Scen: scen, Cfg: cfg, Seams: seamsS3, Bubble: true, Quick: quick, Thorough: thorough, ThoroughSecs: 1200,
 		Real: []string{"v2/d2 complete: Client.getServiceUris, TreeCache, update loops, host selection; v2/d2/lazymap; github.com/go-zookeeper/zk v1.0.3 client (connection loop, watches, reconnect, session handling)"},
 		Stub: []string{"the ZooKeeper ensemble (sim/fakezk: jute wire protocol over net.Pipe)", "wall clock and timers (testing/synctest fake clock, go1.26.8)", "goroutine choice inside one stimulus' causal cone is NOT controlled (one P, no async preemption; trace determinism is measured by --selftest-determinism)"}}
 }
